@@ -398,6 +398,10 @@ def check_keyword_contexts(ctx, rng):
 
 
 def run(ctx):
+    # statements that are large in one dimension (long lists, chains, many tokens, deep nesting, many statements): the property has no size bound
+    for s in [s for s in gen.scale_texts(ctx.rng)]:
+        oracle(ctx, s)
+    ctx.count('scale texts')
     rng = ctx.rng
     texts = [check_region(ctx, rng) for _ in range(ctx.n(4000, 80000))]
     texts += check_edge_regions(ctx, rng)
